@@ -2,6 +2,7 @@ package props
 
 import (
 	"os"
+	"runtime/debug"
 	"sort"
 	"strings"
 	"testing"
@@ -44,3 +45,5 @@ func trimStack(st []byte) string {
 	}
 	return strings.Join(out, "\n")
 }
+
+func debugStack() []byte { return debug.Stack() }
